@@ -241,12 +241,28 @@ func (in *objIndex) search(o Object, field string, operator string, value interf
 }
 
 func (in *objIndex) control() error {
+	// every uuid must be known by a single object id
+	if len(in.uuids) != len(in.ObjectIds) {
+		return fmt.Errorf("index maps %d object ids to %d uuids", len(in.ObjectIds), len(in.uuids))
+	}
+
 	for fn := range in.Fields {
 		if !in.Fields[fn].Control() {
 			return fmt.Errorf("field index %s is not ordered", fn)
 		}
 		if in.Fields[fn].Len() != in.len() {
 			return fmt.Errorf("index and fields index must have the same size, len(index)=%d len(index[%s])=%d", in.len(), fn, in.Fields[fn].Len())
+		}
+		// every entry of a field index must belong to a known object and
+		// an object must be indexed only once, otherwise updates and
+		// deletions of the object cannot find their entry
+		if len(in.Fields[fn].objectIds) != in.Fields[fn].Len() {
+			return fmt.Errorf("field index %s indexes an object several times", fn)
+		}
+		for objid := range in.Fields[fn].objectIds {
+			if _, ok := in.ObjectIds[objid]; !ok {
+				return fmt.Errorf("field index %s indexes unknown object id %d", fn, objid)
+			}
 		}
 	}
 	return nil
